@@ -22,6 +22,8 @@ import Mathlib.Tactic
 import MagpyVerif.Gen.Units
 import MagpyVerif.Lemmas.Display
 import MagpyVerif.Lemmas.DisplayTrig
+import MagpyVerif.Lemmas.DisplayIdx
+import MagpyVerif.Lemmas.DisplayUnit
 namespace MagpyVerif.C19
 open MagpyVerif.Gen
 
@@ -810,4 +812,286 @@ example : (⟨2 * Real.cos (90 * (Real.pi / 180)), 2 * Real.sin (90 * (Real.pi /
 
 -- prism: square prism, vertex 2 of the bottom ring is opposite vertex 0
 example : (prismVerts 4 (2 : ℝ) 6)[4 / 2]? = some ⟨-(2 / 2), 0, -(6 / 2)⟩ := (prism_spans_extent 4 (by norm_num) 2 6).2.2.2 (by norm_num)
+end MagpyVerif.C19
+
+/-! ## More of the pipeline (Model/DisplayIdx.lean; driver rows `ellidx`, `segidx`, `arrow`, `arrowv`, `mmesh`, `mscat`, `path`,
+`autounit`, `ranges` of the `disp` stream): triangulation index arrays of the Sphere and CylinderSegment graphics, trace
+merging, the path trace and the unit chosen by `units_length="auto"` -/
+
+namespace MagpyVerif.C19
+open MagpyVerif.Display MagpyVerif.Mesh
+
+/-- Sphere graphic, `make_Ellipsoid(vert=N)` for EVERY `N ≥ 4` (`make_Sphere` uses 15): the `i, j, k` arrays are exactly the
+south fan `(0, p_{0,q}, p_{0,q+1})`, the two triangles of every quad of every band between consecutive latitude rings and the
+north fan (`ellSpec`); there are `2N(N-2)` triangles; every index is a row of the `N² - 2N + 2` vertex array, no triangle
+repeats an index, and the surface is CLOSED: every edge is shared by exactly two triangles (`get_open_edges` finds nothing). -/
+theorem ellipsoid_mesh_closed (N : Nat) (hN : 4 ≤ N) :
+    ∃ fs, ellipsoidTriangles N = .ok fs ∧ fs = ellSpec N ∧ openEdges fs = [] ∧ fs.length = 2 * N + 2 * ((N - 3) * N) ∧
+      ∀ t ∈ fs, t.1 ≠ t.2.1 ∧ t.2.1 ≠ t.2.2 ∧ t.1 ≠ t.2.2 ∧
+        t.1 < ellipsoidVertCount N ∧ t.2.1 < ellipsoidVertCount N ∧ t.2.2 < ellipsoidVertCount N := by
+  refine ⟨ellSpec N, ellipsoidTriangles_eq hN, rfl, ellSpec_closed hN, ?_, ?_⟩
+  · simp [ellSpec, List.length_flatMap]
+    ring
+  · have h := ellipsoid_N2 hN
+    have hc : ellipsoidVertCount N = 2 + (N - 2) * N := by
+      have : 1 ≤ ellipsoidVertCount N := by
+        unfold ellipsoidVertCount
+        rw [if_neg (by omega)]
+        have : N * N ≥ 4 * N := Nat.mul_le_mul_right N hN
+        omega
+      omega
+    rw [hc]
+    exact ellSpec_indices hN
+
+example : (ellipsoidTriangles 4).map openEdges = .ok [] := by decide
+example : ellipsoidTriangles 4 = .ok [(0, 4, 1), (0, 1, 2), (0, 2, 3), (0, 3, 4), (1, 4, 8), (2, 1, 5), (3, 2, 6), (4, 3, 7),
+    (1, 8, 5), (2, 5, 6), (3, 6, 7), (4, 7, 8), (9, 5, 8), (9, 6, 5), (9, 7, 6), (9, 8, 7)] := by decide
+/-- the generator fails (ValueError from `np.concatenate([])`) exactly for `vert ≤ 3`, as `ellipsoid_rejects_small` says
+of the vertex part -/
+theorem ellipsoid_indices_reject_small (N : Nat) : (∃ fs, ellipsoidTriangles N = .ok fs) ↔ 4 ≤ N := by
+  constructor
+  · rintro ⟨fs, h⟩
+    by_contra hc
+    simp [ellipsoidTriangles, ellipsoidIJK, show N ≤ 3 by omega] at h
+  · intro h
+    exact ⟨_, ellipsoidTriangles_eq h⟩
+
+/-- CylinderSegment graphic for EVERY arc count `N ≥ 2` (the code uses `N = max(5, int(vert·|φ₁-φ₂|/360))`) when the two end
+caps are drawn (`phi2 - phi1 != 360`): the triangles are the `8(N-1)` of the four surfaces (`segSpec`) plus the 4 of the caps
+(`segCaps`), every index is a row of the `4N` vertex array, no triangle repeats an index, and the surface is CLOSED.  Nothing
+depends on `r1`: for `r1 = 0` the inner rows `0 … N-1` and `2N … 3N-1` are `N` coincident points on the axis each, the inner
+shell and the cap halves touching the axis are zero-area triangles — a geometric degeneracy, not an index one. -/
+theorem cylinder_segment_mesh_closed_N (N : Nat) (hN : 2 ≤ N) :
+    segTriangles N false = segSpec N ++ segCaps N ∧ openEdges (segTriangles N false) = [] ∧
+      (segTriangles N false).length = 8 * (N - 1) + 4 ∧
+      ∀ t ∈ segTriangles N false, t.1 ≠ t.2.1 ∧ t.2.1 ≠ t.2.2 ∧ t.1 ≠ t.2.2 ∧ t.1 < 4 * N ∧ t.2.1 < 4 * N ∧ t.2.2 < 4 * N := by
+  have h : segTriangles N false = segSpec N ++ segCaps N := by rw [segTriangles_eq]; rfl
+  refine ⟨h, by rw [h]; exact segSpec_caps_closed hN, ?_, ?_⟩
+  · rw [h]; simp [segSpec, segCaps]; omega
+  · rw [h]
+    intro t ht
+    simp only [segSpec, segCaps, List.mem_append, List.mem_map, List.mem_range, List.mem_singleton] at ht
+    rcases ht with ((((((((⟨q, hq, rfl⟩ | ⟨q, hq, rfl⟩) | ⟨q, hq, rfl⟩) | ⟨q, hq, rfl⟩) | ⟨q, hq, rfl⟩) | ⟨q, hq, rfl⟩) |
+      ⟨q, hq, rfl⟩) | ⟨q, hq, rfl⟩) | (((rfl | rfl) | rfl) | rfl)) <;> dsimp only <;> omega
+
+open MagpyVerif.DisplayTrig in
+/-- … for the real function's inputs: whenever `phi2 - phi1 ≠ 360` the index arrays of
+`make_CylinderSegment(dimension=(r1, r2, h, phi1, phi2), vert)` form a closed surface, for every `vert`, every radius and
+every angle range (also reversed, zero-span and beyond-360 ones, which the generator accepts). -/
+theorem cylinder_segment_mesh_closed (vert : Nat) (phi1 phi2 : ℝ) (h : phi2 - phi1 ≠ 360) :
+    let r := segIJKOf vert phi1 phi2
+    openEdges (zip3 r.1 r.2.1 r.2.2) = [] := by
+  have hf : segFull phi1 phi2 = false := by
+    simp only [segFull, Kern.eq0_real, Kern.n, Kern.ofNat_real, decide_eq_false_iff_not]
+    intro hc
+    apply h
+    push_cast at hc
+    linarith
+  have := (cylinder_segment_mesh_closed_N (segN vert phi1 phi2) (le_trans (by norm_num) (le_segN vert phi1 phi2))).2.1
+  simpa [segIJKOf, hf, segTriangles] using this
+
+example : openEdges (segTriangles 5 false) = [] := by decide
+/-- exactly `phi2 - phi1 == 360` (a full ring drawn as a segment): no caps, and the first and the last column of every arc
+are DIFFERENT rows holding the same points, so at index level the surface is open along the seam (8 open edges: the four
+rungs of column 0 and of column N-1); geometrically the seam is closed -/
+theorem cylinder_segment_full_turn_seam_open :
+    openEdges (segTriangles 5 true) = [(0, 5), (14, 19), (5, 15), (9, 19), (4, 9), (10, 15), (0, 10), (4, 14)] := by decide
+
+/-- winding of the CylinderSegment graphic (arc count 5 = every `vert ≤ 25·(360/|φ₁-φ₂|)`; the cap indices do not depend on
+the size): the triangles are NOT consistently oriented — four directed edges are used twice, all of them by the two triangles
+of the START cap (`(0, 3N, 2N)`, `(N, 3N, 0)`), which are wound opposite to the rest of the surface (the end cap reuses the
+same index pattern shifted by `N - 1`, where it is the correct one); with the two start-cap triangles flipped every directed
+edge is used exactly once. -/
+theorem cylinder_segment_start_cap_winding_witness :
+    ((segTriangles 5 false).flatMap dirEdges).filter (fun e => ((segTriangles 5 false).flatMap dirEdges).count e != 1)
+      = [(0, 5), (15, 10), (10, 0), (5, 15), (15, 10), (10, 0), (5, 15), (0, 5)] ∧
+    ((segSpec 5 ++ [(0, 10, 15), (5, 0, 15)] ++ (segCaps 5).drop 2).flatMap dirEdges).Nodup := by decide
+
+/-! ### trace merging -/
+
+section merge
+variable {α : Type}
+
+theorem mergeMesh3d_fields {ts : List (MeshTrace α)} {m : MeshTrace α} (h : mergeMesh3d ts = .ok m) :
+    ts ≠ [] ∧ m.x = (ts.map (·.x)).flatten ∧ m.y = (ts.map (·.y)).flatten ∧ m.z = (ts.map (·.z)).flatten ∧
+    m.i = (List.zipWith (fun b l => b.i.map (· + l)) ts (meshOffsets ts)).flatten ∧
+    m.j = (List.zipWith (fun b l => b.j.map (· + l)) ts (meshOffsets ts)).flatten ∧
+    m.k = (List.zipWith (fun b l => b.k.map (· + l)) ts (meshOffsets ts)).flatten ∧
+    m.rest = (ts.head?.map (·.rest)).getD [] := by
+  cases ts with
+  | nil => simp [mergeMesh3d] at h
+  | cons t0 r =>
+    simp only [mergeMesh3d] at h
+    split at h
+    · simp at h
+    · simp at h
+    · simp only [Except.ok.injEq] at h
+      subst h
+      simp
+
+/-- `merge_mesh3d(*traces)` (traces whose `i, j, k` have equal lengths): the merged face list is the concatenation, in order,
+of the inputs' face lists re-indexed by the cumulative vertex offsets `o_n = Σ_{m<n} len(x_m)`; the merged coordinate arrays
+are the concatenations; and entry `o_n + v` of the merged `x` is entry `v` of trace `n`'s `x` (likewise `y`, `z` when their
+lengths agree with `x`'s) — so face `f` of trace `n` still refers to the same three coordinates. -/
+theorem merge_mesh3d_preserves_faces (ts : List (MeshTrace α)) (m : MeshTrace α) (h : mergeMesh3d ts = .ok m)
+    (hl : ∀ t ∈ ts, t.i.length = t.j.length ∧ t.j.length = t.k.length) :
+    zip3 m.i m.j m.k = (ts.zip (offsetsFrom 0 ts)).flatMap (fun p => (zip3 p.1.i p.1.j p.1.k).map
+        (fun t => (t.1 + p.2, t.2.1 + p.2, t.2.2 + p.2))) ∧
+    (∀ n, n < ts.length → (offsetsFrom 0 ts)[n]? = some (((ts.take n).map (·.x.length)).sum)) ∧
+    ∀ n t, ts[n]? = some t → ∀ v, v < t.x.length →
+      m.x[((ts.take n).map (·.x.length)).sum + v]? = t.x[v]? ∧
+      ((∀ t' ∈ ts, t'.y.length = t'.x.length) → m.y[((ts.take n).map (·.x.length)).sum + v]? = t.y[v]?) ∧
+      ((∀ t' ∈ ts, t'.z.length = t'.x.length) → m.z[((ts.take n).map (·.x.length)).sum + v]? = t.z[v]?) := by
+  obtain ⟨hne, hx, hy, hz, hi, hj, hk, _⟩ := mergeMesh3d_fields h
+  have hoff : meshOffsets ts = offsetsFrom 0 ts := cumsum_eq_offsetsFrom 0 ts hne
+  refine ⟨?_, ?_, ?_⟩
+  · rw [hi, hj, hk, hoff]
+    exact merge_idx_eq ts 0 (·.i) (·.j) (·.k) hl
+  · intro n hn
+    rw [offsetsFrom_getElem? 0 ts n hn, Nat.zero_add]
+  · intro n t hn v hv
+    have key : ∀ (f : MeshTrace α → List α), (∀ t' ∈ ts, (f t').length = t'.x.length) →
+        (ts.map f).flatten[((ts.take n).map (·.x.length)).sum + v]? = (f t)[v]? := by
+      intro f hf
+      have h1 : (ts.map f)[n]? = some (f t) := by simp [hn]
+      have h2 := flatten_getElem?_offset (ts.map f) n (f t) h1 v (by
+        rw [hf t (List.mem_of_getElem? hn)]; exact hv)
+      have h3 : (((ts.map f).take n).map List.length) = (ts.take n).map (·.x.length) := by
+        rw [← List.map_take, List.map_map]
+        apply List.map_congr_left
+        intro t' ht'
+        exact hf t' (List.mem_of_mem_take ht')
+      rw [h3] at h2
+      exact h2
+    exact ⟨by rw [hx]; exact key (·.x) (fun _ _ => rfl), fun hy' => by rw [hy]; exact key (·.y) hy',
+      fun hz' => by rw [hz]; exact key (·.z) hz'⟩
+
+example : mergeMesh3d [({ x := [1, 2, 3], y := [0, 0, 0], z := [0, 0, 0], i := [0], j := [1], k := [2] } : MeshTrace Int),
+      { x := [7, 8, 9, 10], y := [1, 1, 1, 1], z := [2, 2, 2, 2], i := [0, 1], j := [1, 2], k := [3, 3] }] =
+    .ok { x := [1, 2, 3, 7, 8, 9, 10], y := [0, 0, 0, 1, 1, 1, 1], z := [0, 0, 0, 2, 2, 2, 2], i := [0, 3, 4], j := [1, 4, 5],
+          k := [2, 6, 6] } := by decide
+
+/-- `merge_scatter3d(*traces)` of two or more traces whose first has a mode containing "line": splitting the merged `x`
+(likewise `y`, `z`) at the `None` separators gives an empty leading piece (the code puts a `None` in front of EVERY input,
+also the first) followed by the pieces of the input lines, in order; for inputs without gaps of their own these are the input
+lines themselves.  The mode and every other entry come from the first trace. -/
+theorem merge_scatter3d_preserves_polylines (t0 t1 : ScatterTrace α) (r : List (ScatterTrace α)) (mode : String)
+    (hm : t0.mode = some mode) (hne : mode.isEmpty = false) (hline : containsLine mode = true) :
+    ∃ m, mergeScatter3d (t0 :: t1 :: r) = .ok m ∧
+      splitNone m.x = [] :: (t0 :: t1 :: r).flatMap (fun b => splitNone b.x) ∧
+      splitNone m.y = [] :: (t0 :: t1 :: r).flatMap (fun b => splitNone b.y) ∧
+      splitNone m.z = [] :: (t0 :: t1 :: r).flatMap (fun b => splitNone b.z) ∧
+      m.mode = t0.mode ∧ m.rest = t0.rest := by
+  have hx := splitNone_gapped ((t0 :: t1 :: r).map (·.x))
+  have hy := splitNone_gapped ((t0 :: t1 :: r).map (·.y))
+  have hz := splitNone_gapped ((t0 :: t1 :: r).map (·.z))
+  simp only [List.flatMap_map] at hx hy hz
+  have hmerge : mergeScatter3d (t0 :: t1 :: r) = .ok
+      { x := (t0 :: t1 :: r).flatMap (fun b => none :: b.x), y := (t0 :: t1 :: r).flatMap (fun b => none :: b.y),
+        z := (t0 :: t1 :: r).flatMap (fun b => none :: b.z), mode := t0.mode, rest := t0.rest } := by
+    simp [mergeScatter3d, mergeScatter3dCore, hm, hne, hline]
+  exact ⟨_, hmerge, hx, hy, hz, rfl, rfl⟩
+
+/-- non-vacuity at the level of the two mode tests (`not mode`, `"line" in mode`; string literals do not reduce in the kernel,
+the `mscat` rows of the `disp` stream run the full function): line mode puts a gap marker in front of every input … -/
+example : (mergeScatter3dCore false true [({ x := [some 1, some 2], y := [some 0, some 0], z := [some 0, some 0], mode := some "lines" } : ScatterTrace Int),
+      { x := [some 7], y := [some 8], z := [some 9], mode := none }]).map (fun m => (m.x, splitNone m.x)) =
+    .ok ([none, some 1, some 2, none, some 7], [[], [1, 2], [7]]) := by decide
+/-- … without "line" in the first trace's mode (markers): plain concatenation, no separators; an empty / missing mode becomes
+"markers" (the real function also writes it into the first INPUT dict) -/
+example : (mergeScatter3dCore true false [({ x := [some 1, some 2], y := [some 0, some 0], z := [some 0, some 0], mode := none } : ScatterTrace Int),
+      { x := [some 7], y := [some 8], z := [some 9], mode := some "lines" }]).map (fun m => m.x) =
+    .ok [some 1, some 2, some 7] := by decide
+end merge
+end MagpyVerif.C19
+
+/-! ### the path trace and the unit of `units_length="auto"` -/
+
+namespace MagpyVerif.C19
+open MagpyVerif MagpyVerif.Display
+
+/-- the path line (`make_path` then `rescale_traces` with unit factor `f`): one point per path position — ALL of them, whatever
+frames are displayed — in path order, and point `k` is `f ·` (path position `k`): the line passes through the path positions, in
+the announced unit.  It is drawn iff the path has more than one position and `style.path.show` (`pathShown`). -/
+theorem path_trace_through_positions (ps : List (V3 ℝ)) (f : ℝ) :
+    pathTrace ps f = ps.map (fun p => (⟨f * p.x, f * p.y, f * p.z⟩ : V3 ℝ)) ∧ (pathTrace ps f).length = ps.length := by
+  have h : pathTrace ps f = ps.map (fun p => (⟨f * p.x, f * p.y, f * p.z⟩ : V3 ℝ)) := by
+    unfold pathTrace
+    by_cases hf : f = 1
+    · subst hf
+      simp
+    · rw [if_neg (by simpa using hf)]
+      apply List.map_congr_left
+      intro p _
+      obtain ⟨x, y, z⟩ := p
+      show (⟨f * (1 * x + 0), f * (1 * y + 0), f * (1 * z + 0)⟩ : V3 ℝ) = _
+      simp
+  exact ⟨h, by rw [h, List.length_map]⟩
+
+example : pathTrace [(⟨1, 2, 3⟩ : V3 ℝ), ⟨0, 0, 1⟩] 1000 = [⟨1000 * 1, 1000 * 2, 1000 * 3⟩, ⟨1000 * 0, 1000 * 0, 1000 * 1⟩] :=
+  (path_trace_through_positions _ _).1
+example : pathShown 1 true = false ∧ pathShown 2 true = true ∧ pathShown 5 false = false := by decide
+
+/-- `units_length="auto"`: with `rmax` the largest absolute axis-range coordinate of the subplot (metres) and
+`d = int(log10(rmax)) // 3 * 3` (`autoDigits`, the power of ten of the chosen prefix when the prefix table has it):
+* `rmax ≥ 1`:  `10^d ≤ rmax < 10^(d+3)` — the displayed number `rmax / 10^d` lies in `[1, 1000)`;
+* `0 < rmax < 1`:  `10^(d-1) < rmax ≤ 10^(d+2)` — the displayed number lies in `(1/10, 100]`, NOT in `[1, 1000)`: `int()`
+  truncates the negative logarithm towards zero before the floor division (0.2 mm is announced as 0.2 mm, not 200 µm; the `autounit`
+  rows of the `disp` stream observe displayed values down to 0.1001).
+/- FULL: the displayed extent lies in [1, 1000) of the chosen unit for every rmax in [1e-24, 1e27).  False of the code below 1
+   (second clause); also outside 1e-25 < rmax < 1e27 the table has no prefix and the unit falls back to "m" (`prefixOfDigits`). -/ -/
+theorem auto_unit_factor_bounds (rmax : ℝ) :
+    (1 ≤ rmax → (10 : ℝ) ^ autoDigits rmax ≤ rmax ∧ rmax < (10 : ℝ) ^ (autoDigits rmax + 3) ∧ 0 ≤ autoDigits rmax) ∧
+    (0 < rmax → rmax < 1 →
+      (10 : ℝ) ^ (autoDigits rmax - 1) < rmax ∧ rmax ≤ (10 : ℝ) ^ (autoDigits rmax + 2) ∧ autoDigits rmax ≤ 0) :=
+  ⟨autoDigits_bounds_ge_one, autoDigits_bounds_lt_one⟩
+
+example : (10 : ℝ) ^ autoDigits (5 : ℝ) ≤ 5 := (auto_unit_factor_bounds 5).1 (by norm_num) |>.1
+example : (1 / 5000 : ℝ) ≤ (10 : ℝ) ^ (autoDigits (1 / 5000 : ℝ) + 2) := ((auto_unit_factor_bounds (1 / 5000)).2 (by norm_num) (by norm_num)).2.1
+
+/-- the prefix table behind it (regenerated `Gen.Units.table`): for every multiple of three `d` in `-24 … 24` the unit chosen
+has power `d` and `get_unit_factor` returns `10^(-d)`; any other `d` (beyond yocto / yotta) falls back to metres with factor 1 -/
+theorem auto_unit_prefix_table :
+    (∀ d ∈ [(-24 : Int), -21, -18, -15, -12, -9, -6, -3, 0, 3, 6, 9, 12, 15, 18, 21, 24], (prefixOfDigits d).2 = (d, -d)) ∧
+    (prefixOfDigits 27).2 = (0, 0) ∧ (prefixOfDigits (-27)).2 = (0, 0) := by decide
+
+/-- `make_Arrow(base=N)` = `merge_mesh3d(cone, prism)`: the cone's triangles, then the prism's with every index shifted by the
+cone's `N + 1` vertices -/
+theorem arrow_index_structure (N : Nat) (hN : 0 < N) :
+    arrowTriangles N = .ok (pyramidSpec N ++ (prismSpec N).map (fun t => (t.1 + (N + 1), t.2.1 + (N + 1), t.2.2 + (N + 1)))) := by
+  have hp := pyramidTriangles_eq hN
+  have hq := prismTriangles_eq hN
+  unfold pyramidTriangles at hp
+  unfold prismTriangles at hq
+  unfold arrowTriangles arrowIJK
+  cases h1 : pyramidIJK N with
+  | error e => rw [h1] at hp; simp at hp
+  | ok c =>
+    cases h2 : prismIJK N with
+    | error e => rw [h2] at hq; simp at hq
+    | ok p =>
+      rw [h1] at hp; rw [h2] at hq
+      obtain ⟨ci, cj, ck⟩ := c
+      obtain ⟨pi, pj, pk⟩ := p
+      simp only [Except.ok.injEq] at hp hq
+      simp only [bind, Except.bind, pure, Except.pure]
+      have hlen : ci.length = cj.length ∧ cj.length = ck.length := by
+        simp [pyramidIJK, bind, Except.bind] at h1
+        split at h1
+        · simp at h1
+        · simp only [pure, Except.pure, Except.ok.injEq, Prod.mk.injEq] at h1
+          obtain ⟨rfl, rfl, rfl⟩ := h1
+          rename_i v hv
+          have := setLast_succ hN
+          rw [this] at hv
+          simp only [Except.ok.injEq] at hv
+          subst hv
+          simp
+      rw [zip3_append hlen.1 hlen.2, hp, ← hq]
+      congr 1
+      unfold zip3
+      simp [List.zip_map]
+
+example : arrowTriangles 3 = .ok [(0, 1, 3), (1, 2, 3), (2, 0, 3), (4, 5, 7), (5, 6, 8), (6, 4, 9), (7, 5, 8), (8, 6, 9), (9, 4, 7),
+    (4, 10, 5), (5, 10, 6), (6, 10, 4), (7, 8, 11), (8, 9, 11), (9, 7, 11)] := by decide
 end MagpyVerif.C19
